@@ -367,10 +367,10 @@ theorem unbond_proposer {s s' : Core.St} {a : Addr} {q : Core.Seq} (e : Core.unb
         · rw [if_neg h3] at e
           injection e with e; subst e
           have hqa : q.addr = a := Core.getSeq_addr hq
-          refine ⟨rfl, rfl, rfl, { q with optedIn := false, notice := some (s.t + s.p.noticePeriod) }, ?_, rfl, rfl⟩
-          have hg0 : Core.getSeq { s with nq := Core.insertSorted Core.ltPair (s.t + s.p.noticePeriod, a) s.nq } q.addr = some q := by
+          refine ⟨rfl, rfl, rfl, { q with optedIn := false, notice := some (s.t + s.sqp.noticePeriod) }, ?_, rfl, rfl⟩
+          have hg0 : Core.getSeq { s with nq := Core.insertSorted Core.ltPair (s.t + s.sqp.noticePeriod, a) s.nq } q.addr = some q := by
             rw [hqa]; exact hq
-          have := Core.getSeq_setSeq_self (q := { q with optedIn := false, notice := some (s.t + s.p.noticePeriod) }) hg0
+          have := Core.getSeq_setSeq_self (q := { q with optedIn := false, notice := some (s.t + s.sqp.noticePeriod) }) hg0
           rw [← hqa]; exact this
 
 end DymVerif.LC
